@@ -254,13 +254,19 @@ def int_binop(ctx, op, a, b):
             if _is_pow2(b):                          # single bit
                 return wrap_int(((ta / z3.IntVal(b)) % 2) * b)
             if b >= 0:
-                # general non-negative mask: sum of its single bits
+                # general non-negative mask: sum over its maximal runs of set bits [lo, hi) of ((a >> lo) mod 2^(hi-lo)) << lo
                 r = z3.IntVal(0)
-                k = 1
-                while k <= b:
-                    if b & k:
-                        r = r + ((ta / z3.IntVal(k)) % 2) * k
-                    k <<= 1
+                lo = 0
+                while (1 << lo) <= b:
+                    if not (b >> lo) & 1:
+                        lo += 1
+                        continue
+                    hi = lo
+                    while (b >> hi) & 1:
+                        hi += 1
+                    chunk = ta if lo == 0 else _div(ta, z3.IntVal(1 << lo))
+                    r = r + (chunk % z3.IntVal(1 << (hi - lo))) * (1 << lo)
+                    lo = hi
                 return wrap_int(r)
         return bv_binop(ctx, op, a, b)
     if op == 'BitOr':
